@@ -6,6 +6,16 @@ from common import Rng
 import pytrs
 from pytrs import TractList, TRSList, TRS, Tract
 
+
+def safely(rep, what, f, *a):
+    """run one oracle check; an exception escaping the library is itself a failing input for the observables"""
+    try:
+        return f(rep, *a)
+    except Exception as e:  # noqa
+        rep.violation('failing-input', {'check': what, 'args': [str(x)[:300] for x in a], 'why': f'raised {type(e).__name__}: {e}'})
+        return None
+
+
 RULE = ("lists of 0-10 elements (repeated instances, equal TRS, error/undefined TRS, parsed and unparsed tracts) x predicates "
         "x attribute lists of length 1-3 x duplicate methods x drop flag; iterables mixing acceptable and unacceptable "
         "element types x construction paths (constructor, extend, +=, +, insert, __setitem__, append, from_multiple with "
@@ -199,23 +209,23 @@ def run(ctx):
         specs = elems.rand_specs(r)
         p = r.choice(PREDS)
         drop = r.chance(1, 2)
-        check_filter(rep, specs, p, drop)
+        safely(rep, 'filter', check_filter, specs, p, drop)
         items.append((impl.line_cont_filter(specs, p, drop), impl.impl_cont_filter(specs, p, drop), {'op': 'filter', 'pred': p, 'drop': drop, 'elements': [list(s) for s in specs]}))
         a = (r.chance(3, 4), r.chance(3, 4), r.chance(3, 4), r.chance(1, 2), r.chance(1, 2))
-        check_errors(rep, specs, *a)
+        safely(rep, 'filter_errors', check_errors, specs, *a)
         items.append((impl.line_cont_filter_errors(specs, *a), impl.impl_cont_filter_errors(specs, *a), {'op': 'filter_errors', 'args': list(a), 'elements': [list(s) for s in specs]}))
         method = r.choice(['default', 'instance', 'trs', 'desc', 'lots_qqs'])
-        check_dups(rep, specs, method, drop)
+        safely(rep, 'filter_duplicates', check_dups, specs, method, drop)
         items.append((impl.line_cont_filter_dups(specs, method, drop), impl.impl_cont_filter_dups(specs, method, drop), {'op': 'filter_duplicates', 'method': method, 'drop': drop, 'elements': [list(s) for s in specs]}))
         attrs = [r.choice(ATTRS) for _ in range(r.range(1, 3))]
-        check_group(rep, specs, attrs)
+        safely(rep, 'group_by', check_group, specs, attrs)
         items.append((impl.line_cont_group(specs, attrs), impl.impl_cont_group(specs, attrs), {'op': 'group_by', 'attrs': attrs, 'elements': [list(s) for s in specs]}))
         rep.count(4)
         if len(specs) >= 2:
             rep.nontrivial((tuple(specs), p, drop, method, tuple(attrs)))
         rep.sample({'elements': [s[2] if s[0] == 't' else s[1] for s in specs], 'pred': p, 'method': method, 'attrs': attrs, 'drop': drop}, cap=5)
         if i % 10 == 0:
-            check_construction(rep, r)
+            safely(rep, 'construction', check_construction, r)
     ctx.compare(items)
 
 
